@@ -36,6 +36,8 @@ ASSUMPTIONS = ["only configuration state is observed (precision, dps, operator p
 BUDGET = {'quick': dict(ob_deadline_s=60, total_s=300), 'thorough': dict(ob_deadline_s=300, total_s=600)}
 BOUNDS = {'quick': 'contexts {mp, clone, clone of clone, iv, fp}; all 20 ordered pairs; 8 kinds of change; new precision 1..2^20; clone from entry precision 1..2^20',
           'thorough': 'same as quick, longer deadlines'}
+BOUNDS['quick'] += ('; values crossing: ordered pairs of {mp, clone, clone of clone} x {convert, mpmathify, mpf(), mpc()} x {mpf, mpc} argument, '
+                    '60-bit real / 7-bit imaginary mantissa, exponents in [-1000, 1000], any sign, precision 1..2^20; fp and iv as receiver not encoded')
 BOUNDS['quick'] += ('; shared stores: one obligation per context-taking function that may store (about 110), loops unrolled twice, callees '
                     'stubbed, nested local functions inlined to depth 3, solver/scan deadline 20 s (thorough 90 s)')
 
@@ -54,6 +56,13 @@ def obligations(tier, seed=0):
     if tier == 'thorough':
         # the same with more time per obligation (the grid is already exhaustive over pairs and kinds of change)
         obs = [(s_, dict(p_, _t=120)) for s_, p_ in obs]
+    # values crossing between contexts: a number of context a handed to b's conversion entry points becomes b's own
+    for a in ('mp', 'clone', 'clone2'):
+        for b in ('mp', 'clone', 'clone2'):
+            if a == b:
+                continue
+            for how, kind in (('convert', 'mpf'), ('convert', 'mpc'), ('mpf', 'mpf'), ('mpc', 'mpf'), ('mpc', 'mpc'), ('mpmathify', 'mpf')):
+                obs.append((FX + 'cross_value', dict(a=a, b=b, how=how, kind=kind)))
     # coupling through results: every function taking the context that may store into a container is scanned for stores of
     # call-dependent values into containers shared by all contexts
     from checks.fam_ctx import store_candidates
